@@ -275,6 +275,7 @@ class LoopMixin:
             self.havoc_writes(probe, writes, stable)
             probe.writes = set()
             self.discovery += 1
+            new = set()
             try:
                 sink = []
                 if isinstance(stmt, ast.For):
@@ -286,16 +287,13 @@ class LoopMixin:
                         s1.assume(ops.truthy(c))
                         starts.append(s1)
                 for s1 in starts:
-                    self.exec_block(stmt.body, s1)
+                    for o in self.exec_block(stmt.body, s1):
+                        # only paths that come back to the loop head carry their writes into the next iteration;
+                        # a write followed by break / return / raise is seen by the code after the loop through that path's own state
+                        if o.kind in ("normal", "continue") and o.st.writes is not None:
+                            new |= o.st.writes
             finally:
                 self.discovery -= 1
-            new = set()
-            for w in probe.writes:
-                if w[0] == "box":
-                    # map box id back to a variable name when possible
-                    new.add(w)
-                else:
-                    new.add(w)
             if new <= writes:
                 break
             writes |= new
@@ -311,9 +309,7 @@ class LoopMixin:
         # 2. havoc
         writes, stable = self.discover_writes(stmt, st, d)
         h = self.havoc_writes(st.copy(), writes, stable)
-        h.writes = st.writes
-        if st.writes is not None:
-            st.writes |= writes
+        h.writes = set(st.writes) | writes if st.writes is not None else None
         idx = None
         if is_for:
             idx = z3.Int("%s_%s!%d" % (spec.get("index", "_i"), tag, self._fresh()))
